@@ -3,6 +3,7 @@
 open Model
 open Drvlib
 
+let lower_b (b : n list) = List.map (fun x -> let i = int_of_n x in if i >= 65 && i <= 90 then n_of_int (i + 32) else x) b
 let hx (b : n list) : string = if b = [] then "_" else hex_of_bytes b
 let unhx (s : string) : n list = if s = "_" || s = "-" then [] else bytes_of_hex s
 let dec_n n = dec_of_n n
@@ -62,7 +63,7 @@ let string_of_event (e : event) : string =
       (if txt = [] then "-" else String.concat "+" txt)
 
 let string_of_question (name, ty) =
-  let ls = name_labels name in
+  let ls = List.map lower_b (name_labels name) in      (* DNS names: ASCII case is not significant *)
   (if ls = [] then "_" else String.concat "." (List.map hx ls)) ^ ":" ^ dec_n ty
 
 let string_of_iteration (k : int) (now : n) (o : out list) : string option =
@@ -162,7 +163,6 @@ let string_of_fail (f : fail) : string * string =
 let all_dlvs ifs iters = List.concat_map (fun it -> iter_dlvs ifs it) iters
 let ty_srv = n_of_int 33 and ty_ptr = n_of_int 12
 let is_addr r = int_of_n r.r_type = 1 || int_of_n r.r_type = 28
-let lower_b (b : n list) = List.map (fun x -> let i = int_of_n x in if i >= 65 && i <= 90 then n_of_int (i + 32) else x) b
 
 (* the instance's SRV target and an address owner differ in letter case only *)
 let case_mismatch dl inst =
@@ -190,7 +190,8 @@ let refine ifs iters (f : fail) (tag : string) : string =
   match f with
   | F04_labels (_, ls) ->
     let targets = List.concat_map (fun it -> List.concat_map (fun d -> ptr_targets_of d.d_data) it.i_dgrams) iters in
-    if List.exists (fun t -> t <> ls && name_labels (dotted t) = ls) targets then "labels:presentation" else tag
+    let low = List.map lower_b in
+    if List.exists (fun t -> low t <> ls && low (name_labels (dotted t)) = ls) targets then "labels:presentation" else tag
   | F05_alive (_, _, ty, inst) -> if ptr_variants dl ty inst then "alive:ptr-variant" else tag
   | F05_dead (_, _, _, inst, soon, srv_live) ->
     (* the SRV is still there (an address ran out) and two PTR names point to the instance:
